@@ -1,2 +1,5 @@
 import TransportVerif.Props.C03
-#print axioms TV.Props.C03.placeholder
+#print axioms TV.Props.C03.inbound_judged
+#print axioms TV.Props.C03.inbound_is_silent
+#print axioms TV.Props.C03.inbound_to_owner
+#print axioms TV.Props.C03.one_to_one_inbound
